@@ -51,6 +51,12 @@ Theorem C46_oldest_first : forall c s al, stopped s = false ->
     /\ log s' = log s /\ flights s' = flights s /\ sent s' = sent s /\ errors s' = errors s.
 Proof. exact add_oldest_first. Qed.
 
+(* A delivery counts as successful exactly for a final 2xx response (the model's transcription of
+   `resp.StatusCode/100 != 2`); with C46_accounting this says `sent` grows only for 2xx and every
+   other outcome is counted in `errors` and `dropped`. *)
+Theorem C46_status_2xx : forall st, status_ok st = true <-> 200 <= st < 300.
+Proof. exact status_ok_spec. Qed.
+
 (* Every request received carries between 1 and MaxBatchSize alerts. *)
 Theorem C46_batch_bound : forall c ops, batches_ok c (log (run c ops)) = true.
 Proof. exact batch_bound. Qed.
